@@ -50,7 +50,7 @@ def confirm_lane(lane, items):
         rc, out = sh("cargo test --offline --test seeded_demo 2>&1 | tail -40", cwd=wt)
         p0, f0 = test_counts(out)
         r["demo_without"] = {"passed": p0, "failed": f0}
-        rc, out = sh("git apply --3way %s 2>&1 || git apply %s" % (os.path.join(d, "patch.diff"), os.path.join(d, "patch.diff")), cwd=wt)
+        rc, out = sh("git apply %s 2>&1 || git apply --3way %s" % (os.path.join(d, "patch.diff"), os.path.join(d, "patch.diff")), cwd=wt)
         r["applies"] = rc == 0
         if rc == 0:
             os.remove(demo)
@@ -85,14 +85,15 @@ def detect(ids, tier="quick"):
     bsv = os.path.join(ROOT, "bsv")
     for pid, v, d in mutants(ids):
         patch = os.path.join(d, "patch.diff")
-        rc, out = sh("git -C /repo apply --3way %s 2>&1 || git -C /repo apply %s" % (patch, patch))
+        sh("git -C /repo reset -q --hard HEAD && git -C /repo clean -fdq src tests")
+        rc, out = sh("git -C /repo apply %s 2>&1 || git -C /repo apply --3way %s" % (patch, patch))
         r = {"property": pid, "variant": v, "applies": rc == 0, "checks": {}}
         if rc == 0:
             for c in RELATED[pid]:
                 t0 = time.time()
                 rc2, out2 = sh("%s check %s --tier %s" % (bsv, c, tier))
                 lines = [l for l in out2.splitlines() if l.startswith(("VIOLATION", c + " "))]
-                r["checks"][c] = {"exit": rc2, "lines": [l[:300] for l in lines], "wall_s": round(time.time() - t0)}
+                r["checks"][c] = {"exit": rc2, "lines": [l[:300] for l in lines], "wall_s": round(time.time() - t0), "tail": out2[-1500:] if not lines else ""}
                 viol = [l for l in lines if l.startswith("VIOLATION")]
                 if viol and "replay=" in viol[0]:
                     rp = viol[0].split("replay=")[1].split()[0]
@@ -100,7 +101,7 @@ def detect(ids, tier="quick"):
                         r["checks"][c]["replay_head"] = open(rp).read().splitlines()[:4]
                     except OSError:
                         pass
-        sh("git -C /repo checkout -- . && git -C /repo clean -fdq src tests")
+        sh("git -C /repo reset -q --hard HEAD && git -C /repo clean -fdq src tests")
         r["detected_by"] = [c for c, x in r["checks"].items() if x["exit"] == 1]
         json.dump(r, open(os.path.join(d, "detect.json"), "w"), indent=1)
         print("detect", pid, v, "detected_by", r["detected_by"], {c: x["lines"][:1] for c, x in r["checks"].items()}, flush=True)
